@@ -19,7 +19,14 @@ open Golem.Props.C08
 #print axioms no_panic_partial
 #print axioms close_is_clean_eos_partial
 #print axioms cancel_close_race_panics
-#print axioms new_text
+#print axioms new_graph_gen
+#print axioms new_caps_gen
+#print axioms pump_is_graph
+#print axioms step_wf
+#print axioms graph_step_sound
+#print axioms graph_step_complete
+#print axioms graph_init
+#print axioms wf_iff
 #print axioms newq_text
 #print axioms enq_text
 #print axioms deq_text
